@@ -448,20 +448,36 @@ def main(argv=None):
                 seen[(v[2], v[3])] += 1
             for (c, k), n in seen.most_common(40):
                 print(f"  {n:6d} x {c} {k}")
-        _, spec, clause, key, text = unknown[0]
-        mini = None
-        try:
-            mini = minimise(prop, spec, clause, budget=plan.get("minimise_budget", 300), key=key)
-        except Exception:
-            print("note: minimisation failed:\n" + traceback.format_exc())
-        if mini:
-            key, text = mini["key"], mini["text"]
-        replay_path = write_replay(pid, spec, clause, key, text, mini, prop)
-        # confirm in a fresh interpreter
-        confirmed = _confirm(pid, replay_path)
-        print(f"clause={clause} key={key}: {text}")
+        # candidates: the first occurrence of each distinct (clause, key), in run order. A violation that does not reproduce from its replay file in
+        # a fresh interpreter depended on state left behind by an earlier run of the same worker process (possible only when the code under test
+        # keeps process-wide state, which the unchanged tree does not): the next candidate is tried before giving up
+        cands, seen_ck = [], set()
+        for v in unknown:
+            if (v[2], v[3]) not in seen_ck:
+                seen_ck.add((v[2], v[3]))
+                cands.append(v)
+        confirmed = False
+        for (_, spec, clause, key, text) in cands[:6]:
+            mini = None
+            try:
+                mini = minimise(prop, spec, clause, budget=plan.get("minimise_budget", 300), key=key)
+            except Exception:
+                print("note: minimisation failed:\n" + traceback.format_exc())
+            if mini:
+                key, text = mini["key"], mini["text"]
+            replay_path = write_replay(pid, spec, clause, key, text, mini, prop)
+            # confirm in a fresh interpreter
+            confirmed = _confirm(pid, replay_path)
+            print(f"clause={clause} key={key}: {text}")
+            if confirmed:
+                break
+            print("note: this violation did not reproduce from its replay file in a fresh interpreter (it depended on state an earlier run left in the worker process)")
+            try:
+                os.remove(replay_path)
+            except OSError:
+                pass
         if not confirmed:
-            print("HARNESS-ERROR: the replay file did not reproduce the violation in a fresh interpreter (nondeterminism)")
+            print("HARNESS-ERROR: no violation reproduced from its replay file in a fresh interpreter (nondeterminism)")
             return 2
         print(f"VIOLATION property={pid} replay={replay_path}")
         rc = 1
